@@ -191,7 +191,7 @@ fn xml_attr_desc(b: &[u8], eq: usize) -> String {
 }
 
 const NUM_CLASSES: [&str; 9] = ["zero", "one", "minus1", "plus1", "maxm1", "max", "signbit", "double", "half"];
-const XMLNUM_CLASSES: [&str; 11] = ["0", "1", "minus1", "plus1", "2147483647", "4294967295", "4294967296", "18446744073709551616", "-1", "", "abc"];
+const XMLNUM_CLASSES: [&str; 12] = ["0", "1", "minus1", "plus1", "2147483647", "4294967295", "4294967296", "18446744073709551616", "-1", "", "abc", "3000000"];
 // the last two are VALID references that declare far more cells than the file holds (2.6 M and 9 M): a
 // reader that reserves for the declared area is out of proportion to the input without aborting
 const XMLREF_CLASSES: [&str; 13] = ["A0", "XFE1", "A1048577", "A", "1", "ZZZZZZZZZZ1", "A1:", "A99999999999", "", "C9:A1", "A9:C1", "A1:Z100000", "B2:B9000000"];
